@@ -967,6 +967,20 @@ func (t *tr) stmts(list []ast.Stmt, k []ast.Stmt) string {
 				}
 				rhs := t.expr(v.Rhs[0])
 				g := t.takeGuards()
+				if t.calleeHasFuel(v.Rhs[0]) {
+					// results of a function with recursion fuel are bound by projections, not by a pattern:
+					// unfolding the caller must not force the evaluation of `callee loopFuel …`
+					tup := "res_" + strings.ReplaceAll(src(v.Rhs[0].(*ast.CallExpr).Fun), ".", "_")
+					out := "let " + tup + " := " + rhs + "; "
+					for i, nm := range names {
+						proj := strings.Repeat(".2", i)
+						if i < len(names)-1 {
+							proj += ".1"
+						}
+						out += "let " + nm + " := " + tup + proj + "; "
+					}
+					return t.wrapGuards(g, out+t.stmts(rest, k))
+				}
 				return t.wrapGuards(g, "let ("+strings.Join(names, ", ")+") := "+rhs+"; "+t.stmts(rest, k))
 			}
 		}
@@ -1736,6 +1750,24 @@ func (t *tr) callResultTypes(e ast.Expr) []string {
 	return nil
 }
 
+// a call of an already translated function that has a recursion fuel (callers pass `loopFuel`)
+func (t *tr) calleeHasFuel(e ast.Expr) bool {
+	c, ok := e.(*ast.CallExpr)
+	if !ok {
+		return false
+	}
+	name := ""
+	switch f := c.Fun.(type) {
+	case *ast.Ident:
+		name = f.Name
+	case *ast.SelectorExpr:
+		if isPkgName(rootIdent(f)) {
+			name = src(f)
+		}
+	}
+	return name != "" && strings.HasSuffix(t.known[name], " loopFuel")
+}
+
 func callsItself(f *fn) bool {
 	recursive := false
 	if f.decl.Recv == nil {
@@ -2069,7 +2101,7 @@ var suffixList = []suffixSpec{
 	{"primefield.Element.Pow", "if a.IsZero()", "core"},
 	{"binfield.Element.Trace", "out := a.Copy()", "core"},
 	{"primefield.newTable", "t := make([][]uint", "core"},
-	{"primefield.Field.MultGenerator", "factors, _ := auxmath.Factorize", "core"},
+	{"primefield.Field.MultGenerator", "var e *Element", "core"},
 }
 
 func translateSuffix(f *fn, spec suffixSpec, known map[string]string, retTypes map[string]string) string {
@@ -2125,10 +2157,19 @@ func translateSuffixMode(f *fn, spec suffixSpec, known map[string]string, retTyp
 		}
 		ast.Inspect(s, func(n ast.Node) bool {
 			if a, ok := n.(*ast.AssignStmt); ok && a.Tok == token.DEFINE {
-				for _, l := range a.Lhs {
+				var rts []string
+				if len(a.Rhs) == 1 {
+					rts = t.callResultTypes(a.Rhs[0])
+				}
+				for i, l := range a.Lhs {
 					if id, ok := l.(*ast.Ident); ok && id.Name != "_" {
 						t.params[id.Name] = true
 						t.types[id.Name] = "object"
+						if len(rts) == len(a.Lhs) && isSliceTy(rts[i]) {
+							// a slice returned by a translated function in the skipped head: a parameter
+							t.types[id.Name] = rts[i]
+							ps = append(ps, "("+id.Name+" : "+leanType(rts[i])+")")
+						}
 					}
 				}
 			}
